@@ -48,7 +48,7 @@ def check_config(cfg, w, rep):
     for p in R.index_inserts:
         lf = prog.fns[p]
         body_ = lf.body
-        cut = {e.blk for e in w.own_effects(lf) if e.kind == "WriteData" and e.flags.get("op") in ("write_all", "write") and e.body is body_}
+        cut = {e.blk for e in bucket_data_writes(w, lf)[0] if e.body is body_}
         succ = [rd for rd in ret_defs(prog, body_) if rd.cls in ("success", "unknown", "delegated")]
         reach = prog.cfg(body_).reachable(0, cut_nodes=cut)
         badr = [rd for rd in succ if rd.blk in reach]
